@@ -22,6 +22,7 @@ EXPLANATION = (
     "string assembled from \"||\", the (lower-cased, www-stripped, punycoded) hostname and '^'; "
     "(4) rule-type options — decision table of parse_filter over format x rule_types x detected type."
     ' Later additions: the JSON keys of ParseOptions / RuleTypes / FilterFormat are the established ones (read from the derived field visitors); every location of a cosmetic line is recorded or the line is rejected (no iteration of the location loop falls through); parse_filter forwards what the parsers return unchanged (closures that only call Into::into); the per-line loops contain no truncating adapter or `break`; ParseOptions::permissions applies to the rules of its own list (C18.2).'
+    ' Round 6: in the standard format detect_filter_type and both rule parsers receive line.trim() itself; every option is recorded or the line rejected (C03.9 borrowed).'
 )
 NOT_DECIDED = "That the accepted grammar is the intended one; behaviour of the regex / idna / addr dependencies."
 
@@ -36,7 +37,12 @@ def check(run):
             run, "C11.1.totality", F, cfg, a7_cones.PARSE_ROOTS, a7_common.rows(), a7_common.ALL,
             floor=140, label="list-parsing"))
         run.guard("C11.2.line-independence", cfg, lambda: rule_independence(run, F, cfg))
+        from . import C03 as _C03opt
+        bop = run.borrow("C03", why="a line is either parsed as a whole or rejected as a whole: an option the parser does not "
+                                    "record may not be dropped from an otherwise accepted line")
+        run.guard("C11.via.C03.9.every-entry", cfg + "/recorded", lambda: _C03opt.rule_every_option_recorded(bop, F, cfg))
         run.guard("C11.2.line-independence", cfg + "/locations", lambda: rule_location_loop(run, F, cfg))
+        run.guard("C11.2.line-independence", cfg + "/standard-text", lambda: rule_standard_text(run, F, cfg))
         run.guard("C11.3.hosts-delegation", cfg, lambda: rule_hosts(run, F, cfg))
         run.guard("C11.4.rule-types", cfg, lambda: rule_types(run, F, cfg))
         from . import wire_keys as _wk
@@ -224,6 +230,26 @@ def rule_hosts(run, F, cfg):
            f"that only convert the type with Into::into ({[(x[0], x[2], x[3]) for x in fw]})", site=pf.loc(0), config=cfg)
     run.ob("C11.3.hosts-delegation", "hosts-arm-gated", ok_g,
            "in parse_filter the hosts arm reaches parse_hosts_style only under rule_types.loads_network_rules()", config=cfg)
+
+
+def rule_standard_text(run, F, cfg):
+    """parse_filter, standard format: what is classified and what the two rule parsers receive is the line with its
+    surrounding whitespace removed -- nothing cut out of it (a `#`, a space and a quote are ordinary characters of
+    selectors, scriptlet arguments and patterns)."""
+    pf = F.fn("lists::parse_filter")
+    run.touched(pf)
+    p1 = pf.local_name(1)
+    want = f"core::str::trim({p1})"
+    seen = {}
+    for b, t in pf.calls(r"^lists::detect_filter_type$|^filters::network::NetworkFilter::parse$|^filters::cosmetic::CosmeticFilter::parse$"):
+        seen.setdefault(strip_generics(t["callee"]).split("::")[-2] + "::" + strip_generics(t["callee"]).split("::")[-1], []).append(
+            pf.expr_operand(t["args"][0]))
+    bad = {k: v for k, v in seen.items() if any(x != want for x in v)}
+    run.ob("C11.2.line-independence", "standard-rule-text-is-the-trimmed-line", len(seen) == 3 and not bad,
+           f"detect_filter_type, NetworkFilter::parse and CosmeticFilter::parse all receive `{want}`; "
+           f"differing arguments: { {k: [x[:90] for x in v] for k, v in bad.items()} }", site=pf.loc(0), config=cfg,
+           detail="a rule text that is shortened before parsing (inline-comment stripping, quoting, splitting) changes "
+                  "selectors and patterns that legitimately contain the cut-off characters")
 
 
 def rule_types(run, F, cfg):
